@@ -113,7 +113,31 @@ pub fn draw_foreign(rng: &mut Rng, big: bool) -> ForeignSpec {
             _ => (rng.range(0, (2 * lim) as u64) as i64 - lim) as i32,
         };
     }
-    ForeignSpec { entries, contents, placement: rng.below(4) as u8, set: Settings::draw(rng, layout.ic), layout, stored, meta: Meta::draw(rng) }
+    // prefix families: a shorter content that is a prefix of a longer one (placement 4 lets both
+    // share one offset with different lengths — overlapping tile ranges are spec-valid)
+    let placement = rng.below(5) as u8;
+    if placement == 4 || rng.chance(15) {
+        let k = contents.len();
+        for i in 0..k.min(6) {
+            let c = contents[i];
+            if c.len > 1 && c.k != 2 {
+                let shorter = Cont { len: 1 + rng.below(u64::from(c.len) - 1) as u32, ..c };
+                if !contents.contains(&shorter) {
+                    contents.push(shorter);
+                }
+            }
+        }
+        let n = contents.len() as u64;
+        for e in entries.iter_mut() {
+            if rng.chance(50) {
+                let ci = rng.below(n) as usize;
+                if e.run <= 12 || contents[ci].len <= 64 {
+                    e.c = ci as u32;
+                }
+            }
+        }
+    }
+    ForeignSpec { entries, contents, placement, set: Settings::draw(rng, layout.ic), layout, stored, meta: Meta::draw(rng) }
 }
 
 pub fn draw_layout(rng: &mut Rng, big: bool) -> Layout {
@@ -166,7 +190,20 @@ pub fn materialise_foreign(f: &ForeignSpec) -> Result<Img, String> {
     }
     let mut data: Vec<u8> = Vec::new();
     let mut at: Vec<(u64, u32)> = vec![(0, 0); n];
+    if f.placement == 4 {
+        // longest first, so that prefixes can reuse the offset of an already placed content
+        order.sort_by_key(|c| std::cmp::Reverse(f.contents[*c].len));
+    }
+    let mut placed: Vec<(usize, Vec<u8>)> = Vec::new();
     for c in order {
+        if f.placement == 4 {
+            let b = f.contents[c].bytes();
+            if let Some((d, _)) = placed.iter().find(|(_, db)| db.len() > b.len() && db.starts_with(&b)) {
+                at[c] = (at[*d].0, b.len() as u32);
+                continue;
+            }
+            placed.push((c, b));
+        }
         if f.placement == 2 && r.chance(50) {
             for _ in 0..1 + r.below(20) {
                 data.push(0xEE);
@@ -749,6 +786,36 @@ impl Scenario for LazyOpen {
                 None => {
                     ensure!(rs.is_empty(), "C20:absent-lookup-read", "lookup of absent tile {id} read {:?}", rs);
                     ensure!(matches!(got, Ok(None)), "C20:absent-lookup-result", "lookup of absent tile {id} did not report 'no such tile'");
+                }
+            }
+        }
+        // a transient failure during one lookup must not disturb the lookups that follow: the
+        // failed call may return an error, the next ones read exactly their own range again
+        if !ids.is_empty() {
+            for round in 0..3u64 {
+                let id = ids[rng.usize_below(ids.len())];
+                let Some(&(off, len)) = img.addr.get(&id) else { continue };
+                let at = handle.nops() + rng.below(3);
+                handle.set_fault(crate::disk::Fault::Transient { at, n: 1 });
+                let r = sut::get(&mut pm, id, c.face)?;
+                handle.set_fault(crate::disk::Fault::None);
+                ctx.bump("fired_transient_timeouts", 1);
+                if let Ok(Some(b)) = &r {
+                    ensure!(Some(b) == img.expected.get(&id), "C20:lookup-bytes", "lookup of tile {id} (transient fault round {round}) returned the wrong bytes");
+                }
+                // follow-ups: the tile stored right behind it, the same tile, and one more
+                let end = off + u64::from(len);
+                let neighbour = img.addr.iter().find(|(i, (o, _))| *o == end && c.range.contains(**i)).map(|(i, _)| *i);
+                for fid in [neighbour, Some(id), Some(ids[rng.usize_below(ids.len())])].into_iter().flatten() {
+                    let Some(&(o2, l2)) = img.addr.get(&fid) else { continue };
+                    handle.clear_log();
+                    ctx.evals += 1;
+                    let got = sut::get(&mut pm, fid, c.face)?;
+                    let a = h.data_offset + o2;
+                    let want = vec![(a, a + u64::from(l2))];
+                    let rs = handle.read_set();
+                    ensure!(rs == want, "C20:lookup-read-range-after-transient-fault", "after a transient failure while reading tile {id}, the lookup of tile {fid} read {:?}; the tile occupies {:?}", rs, want);
+                    ensure!(matches!(&got, Ok(Some(b)) if Some(b) == img.expected.get(&fid)), "C20:lookup-bytes-after-transient-fault", "after a transient failure while reading tile {id}, the lookup of tile {fid} returned the wrong bytes");
                 }
             }
         }
